@@ -678,6 +678,11 @@ def bpki_items(tier):
                 out.append((kind, key, T.epki(pki, cat_tok.PWDS[pl], cat_tok.SALT, it), cat_tok.PWDS[pl], masks if (pl, it) == (1, 1) else [], 'ref iter=%d |pwd|=%d' % (it, pl)))
         # a container made by the library itself (10000 iterations)
         out.append((kind, key, None, cat_tok.PWDS[3], masks[:1] if (q and len(key) == 32) or (not q and len(key) in (32, 17)) else [], 'lib iter=10000 |pwd|=3'))
+    # iteration counts by the classes of their DER encoding (INTEGER of 2 octets, of 3 octets with a leading 00 pad and a low octet below /
+    # above 0x80, of 3 octets without a pad, of 4 octets with a pad): the count travels inside the container and is parsed back on Unwrap
+    for it in ((32767, 32768, 40000, 65535, 65536) if q else (10001, 32767, 32768, 32896, 40000, 50000, 65407, 65535, 65536, 100000, 8388608)):
+        out.append(('privkey', keys[1][1], None, cat_tok.PWDS[3], [], 'lib iter=%d |pwd|=3' % it))
+        out.append(('share', keys[4][1], None, cat_tok.PWDS[1], [], 'lib iter=%d |pwd|=1' % it))
     out.append(('privkey', keys[3][1], None, cat_tok.PWDS[0], [], 'lib iter=10000 |pwd|=0'))
     out.append(('privkey', keys[0][1], None, cat_tok.PWDS[64], [], 'lib iter=10000 |pwd|=64'))
     return out
@@ -704,7 +709,7 @@ def bpki_item(item):
     calls = 0
     what = '%s %d octets, %s' % (kind, len(key), label)
     if epki is None:
-        r = run_fn(wr, dict(key=key, pwd=pwd, salt=cat_tok.SALT, iter=10000)); calls += 1
+        r = run_fn(wr, dict(key=key, pwd=pwd, salt=cat_tok.SALT, iter=int(re.search(r'iter=(\d+)', label).group(1)))); calls += 1
         if r['ret']:
             return [('bpki:wrap', None, '%s(%s) failed: %#x' % (wr, what, r['ret']))], calls
         epki = r['epki']
